@@ -2,6 +2,7 @@
 from .lib import api, composite
 from .lib.absint import fmt_val, fmt_loc
 from .lib.facts import AnalysisError
+from .lib.routing import outer_enters
 
 LEVEL = "other"
 EXPLANATION = (
@@ -192,7 +193,7 @@ def constructors(cx, chk, cfg, F):
     for m, inner in (("keys", "iter"), ("keys_lru", "iter_lru"), ("values", "iter"), ("values_lru", "iter_lru"), ("values_mut", "iter_mut"), ("values_lru_mut", "iter_lru_mut")):
         f = F.find(RAW + "::" + m)
         for p in cx.paths(cfg, f["path"]):
-            ent = [e for e in p.events if e["ev"] == "enter" and e["depth"] == 0 and e["q"].startswith(RAW + "::")]
+            ent = outer_enters(p, lambda e: e["q"].startswith(RAW + "::"))
             if [e["q"].split("::")[-1] for e in ent] == [inner] and ent[0]["args"][0] == SELF:
                 chk.ob("C14.R3", "%s:RawLRU::%s" % (cfg, m), "wraps self.%s()" % inner)
             else:
@@ -203,7 +204,7 @@ def constructors(cx, chk, cfg, F):
             f = [F.fns[i] for i in im["items"] if i in F.fns][0]
             want = "iter_mut" if im["self_ty"].startswith("&mut") or im["self_ty"].startswith("&'a mut") or " mut " in im["self_ty"][:10] else "iter"
             for p in cx.paths(cfg, f["path"]):
-                ent = [e["q"].split("::")[-1] for e in p.events if e["ev"] == "enter" and e["depth"] == 0]
+                ent = [e["q"].split("::")[-1] for e in outer_enters(p, lambda e: e["q"].startswith(RAW + "::"))]
                 if ent == [want]:
                     chk.ob("C14.R3", "%s:IntoIterator for %s" % (cfg, im["self_ty"][:12]), "delegates to %s" % want)
                 else:
@@ -226,7 +227,7 @@ def accessors(cx, chk, cfg, F):
             meth = f["name"][len(fld) + 1:]
             n += 1
             for p in cx.paths(cfg, f["path"]):
-                ent = [e for e in p.events if e["ev"] == "enter" and e["depth"] == 0]
+                ent = outer_enters(p, lambda e: RAW in e["q"])
                 good = len(ent) == 1 and ent[0]["q"].split("::")[-1] == meth and ent[0]["args"] and isinstance(ent[0]["args"][0], tuple) \
                     and ent[0]["args"][0][0] == "ref" and ent[0]["args"][0][1] == ("H", SELF, (fld,))
                 if good:
